@@ -338,6 +338,8 @@ class CallMixin:
         ret = spec.get("returns", "any")
         if spec.get("pure"):
             ufname = ("spec_" + spec["uf"]) if spec.get("uf") else "opq_" + "".join(ch if ch.isalnum() else "_" for ch in txt)
+            if spec.get("uf") and spec["uf"] in C.UNINTERPRETED and C.UNINTERPRETED[spec["uf"]][0] != len(pos):
+                ufname += f"_{len(pos)}"  # same callee with another number of arguments: a separate function
             f = self.get_uf(ufname, [Val] * len(pos), Val)
             rt = f(*[p.t for p in pos])
             self.note(f"opaque callee {txt} treated as a deterministic function of its arguments")
@@ -570,7 +572,20 @@ class CallMixin:
             self.note("isinstance(x, type(y)) modelled with an uninterpreted reflexive subclass relation on class ids (proper subclasses exist in the loaded class hierarchy)")
             return k(st, sv_bool(z3.And(smt.is_ref(x), smt.is_ref(y), f(smt.CLS[Val.r(x)], smt.CLS[Val.r(y)]))))
         if name == "isinstance":
-            classes = self.classes_of(pos[1])
+            try:
+                classes = self.classes_of(pos[1])
+            except Unsupported:
+                # the class (tuple) is a run-time value, e.g. a class-level table a subclass may override.  Only for the
+                # attributes the contract lists (ghost dynamic_isinstance) is the answer modelled, as an unknown but
+                # deterministic predicate of (class of x, that value), never true for a non-object: the contract then
+                # has to hold for both answers.  Anything else stays unsupported (-> undecided).
+                a1 = node.args[1] if isinstance(node, ast.Call) and len(node.args) > 1 else None
+                if not (isinstance(a1, ast.Attribute) and a1.attr in self.con.ghost.get("dynamic_isinstance", ())):
+                    raise
+                f = self.get_uf("isinstance_dyn", [IntS, Val], z3.BoolSort())
+                x = pos[0].t
+                self.note("isinstance(x, <run-time class tuple>) modelled as an uninterpreted predicate of the class of x and the tuple value")
+                return k(st, sv_bool(z3.And(smt.is_ref(x), f(smt.CLS[Val.r(x)], pos[1].t))))
             return k(st, sv_bool(self.isinstance_term(st, pos[0], classes)))
         if name == "bool":
             return k(st, sv_bool(self.truthy(st, pos[0])) if pos else sv_bool(False))
